@@ -48,6 +48,10 @@ R3_LIST = [e["name"] for e in poolreg.POOL_ENTRIES
 R1_LIST = [e["name"] for e in poolreg.POOL_ENTRIES]
 FEAT_EQUIV = {e["name"] for e in poolreg.POOL_ENTRIES if e["feat"]}
 MODEL_OVERRIDE = {"GreedySamplingTarget[GSy]": "nic"}
+# R3 only: a committee member that is a decision tree is not invariant under
+# row permutations (scikit-learn breaks exactly tied splits by summation
+# order; seen as a false alarm of this check, DESIGN section 10)
+MODEL_OVERRIDE_R3 = {"QBC[regression]": "reg_list_no_tree"}
 # strategies whose first-step utilities are random by design
 RANDOM_UTILS = {"RandomSampling"}
 # utilities obtained by a bounded scalar optimiser (scipy minimize_scalar,
@@ -101,6 +105,8 @@ def _case(draw, tier):
     case["relation"] = rel
     if name in MODEL_OVERRIDE:
         case["opts"]["model_key"] = MODEL_OVERRIDE[name]
+    if rel == "R3" and name in MODEL_OVERRIDE_R3:
+        case["opts"]["model_key"] = MODEL_OVERRIDE_R3[name]
     case["opts"].pop("sample_weight", None)
     n = len(case["yid"])
     unl = [i for i in range(n) if case["yid"][i] is None]
